@@ -4,6 +4,7 @@
 //!
 //! Case lines: `{"k":"bound","kind":"sle|sge|ule|uge|ne","a":D,"b":"bound","impl":S|"err"}`,
 //! `{"k":"isect","a":D,"b":D,"wit":[common members],"impl":S|"err"}`,
+//! `{"k":"disect","size":bytes,"a":V,"b":V,"impl":"err"|"abs=…;rel=id:D,…;top=…;size=…"}` with `V = {"abs":D|null,"rel":[[id,D],…],"top":bool}`,
 //! `{"k":"dbound","kind":…,"a":D|null,"rel":n,"top":bool,"b":"bound","impl":"err"|"abs=…;rel=same|changed;top=…"}`.
 use cwe_checker_lib::abstract_domain::*;
 use cwe_checker_lib::intermediate_representation::*;
@@ -115,6 +116,129 @@ fn emit_dbound(out: &mut Out, kind: &str, a: Option<&Dom>, w: usize, rel: u64, t
     out.count("data-bound");
     let key = format!("d|{}|{:?}|{}|{}|{}", kind, a, rel, top, b);
     out.case(&line, if imp == "err" { None } else { Some(&key) });
+}
+
+/// a `DataDomain<IntervalDomain>` value of the harness: relative targets (id, offset) in id order,
+/// absolute part, top flag
+#[derive(Clone, Debug)]
+struct DVal {
+    rel: Vec<(u64, Dom)>,
+    abs: Option<Dom>,
+    top: bool,
+}
+
+fn dval_json(d: &DVal) -> String {
+    let rel: Vec<String> = d.rel.iter().map(|(i, o)| format!("[{},{}]", i, dom_json(o))).collect();
+    format!(
+        "{{\"abs\":{},\"rel\":[{}],\"top\":{}}}",
+        d.abs.as_ref().map(dom_json).unwrap_or("null".to_string()),
+        rel.join(","),
+        d.top
+    )
+}
+
+fn dval_from_json(v: &Value) -> DVal {
+    DVal {
+        rel: v["rel"].as_array().unwrap().iter().map(|p| (p[0].as_u64().unwrap(), dom_from_json(&p[1]))).collect(),
+        abs: if v["abs"].is_null() { None } else { Some(dom_from_json(&v["abs"])) },
+        top: v["top"].as_bool().unwrap(),
+    }
+}
+
+fn dval_impl(size: u64, d: &DVal) -> DataDomain<IntervalDomain> {
+    let mut r: DataDomain<IntervalDomain> = DataDomain::new_empty(ByteSize::new(size));
+    r.set_relative_values(d.rel.iter().map(|(i, o)| (ident(*i), to_impl(o))).collect());
+    r.set_absolute_value(d.abs.as_ref().map(to_impl));
+    if d.top {
+        r.set_contains_top_flag();
+    }
+    r
+}
+
+/// canonical rendering of a `DataDomain` result
+fn show_data(v: &DataDomain<IntervalDomain>) -> String {
+    let rel: Vec<String> = v
+        .get_relative_values()
+        .iter()
+        .map(|(id, o)| {
+            let i = (0..16).find(|i| ident(*i) == *id).map(|i| i.to_string()).unwrap_or("?".to_string());
+            format!("{}:{}", i, show_impl(o))
+        })
+        .collect();
+    format!(
+        "abs={};rel={};top={};size={}",
+        v.get_absolute_value().map(show_impl).unwrap_or("none".to_string()),
+        rel.join(","),
+        v.contains_top(),
+        u64::from(v.bytesize())
+    )
+}
+
+/// `DataDomain::intersect` of the real code
+fn emit_disect(out: &mut Out, size: u64, a: &DVal, b: &DVal, cap: u64) {
+    let (ia, ib) = (dval_impl(size, a), dval_impl(size, b));
+    let imp = match guard(|| ia.intersect(&ib)) {
+        Ok(Ok(v)) => show_data(&v),
+        Ok(Err(_)) => "err".to_string(),
+        Err(p) => panic_str(p),
+    };
+    let line = format!(
+        "{{\"k\":\"disect\",\"size\":{},\"a\":{},\"b\":{},\"cap\":{},\"impl\":\"{}\"}}",
+        size, dval_json(a), dval_json(b), cap, imp
+    );
+    out.count("data-intersect");
+    let shape = |d: &DVal| match (d.rel.is_empty(), d.abs.is_none()) {
+        (true, true) => "none",
+        (true, false) => "abs",
+        (false, true) => "rel",
+        (false, false) => "mixed",
+    };
+    out.count(&format!("disect:{}x{}", shape(a), shape(b)));
+    out.count(if imp == "err" { "disect:empty" } else { "disect:nonempty" });
+    let key = format!("di|{}|{}|{}", size, dval_json(a), dval_json(b));
+    out.case(&line, if imp == "err" { None } else { Some(&key) });
+}
+
+/// a random `DataDomain` value of `w` bits; `like`: a value to correlate with (shared identifiers with
+/// overlapping offsets, absolute part around a common member)
+fn rnd_dval(rng: &mut Rng, w: usize, like: Option<&DVal>) -> DVal {
+    let hints = rng.chance(1, 3);
+    let mut rel: Vec<(u64, Dom)> = Vec::new();
+    let nrel = match rng.below(5) { 0 | 1 => 0, 2 => 1, 3 => 2, _ => 3 };
+    for _ in 0..nrel {
+        let id = match like {
+            Some(l) if !l.rel.is_empty() && rng.chance(2, 3) => l.rel[rng.below(l.rel.len() as u64) as usize].0,
+            _ => rng.below(5),
+        };
+        if rel.iter().any(|(i, _)| *i == id) {
+            continue;
+        }
+        let off = match like.and_then(|l| l.rel.iter().find(|(i, _)| *i == id)) {
+            Some((_, o)) if rng.chance(3, 4) => {
+                let x = rnd_member(rng, o);
+                let st = if rng.chance(1, 4) { 0 } else { rnd_stride(rng, w) };
+                let iv = interval_around(rng, w, x, st);
+                with_hints(rng, w, iv, hints)
+            }
+            _ => rnd_dom(rng, w, hints),
+        };
+        rel.push((id, off));
+    }
+    rel.sort_by_key(|(i, _)| *i);
+    let abs = if rng.chance(1, 3) {
+        None
+    } else {
+        match like.and_then(|l| l.abs.as_ref()) {
+            Some(o) if rng.chance(2, 3) => {
+                let x = rnd_member(rng, o);
+                let st = if rng.chance(1, 4) { 0 } else { rnd_stride(rng, w) };
+                let iv = interval_around(rng, w, x, st);
+                Some(with_hints(rng, w, iv, hints))
+            }
+            _ => Some(rnd_dom(rng, w, hints)),
+        }
+    };
+    DVal { rel, abs, top: rng.chance(1, 4) }
 }
 
 /// a bound that is interesting for `a`: members, neighbours, bounds, hints, sign boundaries, random
@@ -254,6 +378,9 @@ fn replay(out: &mut Out, lines: Vec<String>) {
                     v["rel"].as_u64().unwrap(), v["top"].as_bool().unwrap(), v["b"].as_str().unwrap().parse().unwrap(), cap,
                 );
             }
+            "disect" => {
+                emit_disect(out, v["size"].as_u64().unwrap(), &dval_from_json(&v["a"]), &dval_from_json(&v["b"]), cap);
+            }
             k => panic!("unknown case kind {}", k),
         }
     }
@@ -282,7 +409,7 @@ fn main() {
         "well-formed strided intervals with and without widening hints: 1-byte values against bounds (all kinds) and intersection \
          partners, sampled 2/4/8-byte values (bounds next to members/hints/sign boundaries; intersection partners built around a \
          common member, co-prime / power-of-two / huge strides; 8-byte partners whose strides have an lcm just below / at / \
-         above u64::MAX with start values of mixed sign next to the i64 bounds, the only common candidate inside / at the ends / one stride outside of the partner's range), DataDomain values with relative targets; non-trivial = refinement \
+         above u64::MAX with start values of mixed sign next to the i64 bounds, the only common candidate inside / at the ends / one stride outside of the partner's range), DataDomain values with relative targets (bound refinements, and DataDomain::intersect on pairs of absolute-only / relative-only / mixed values with and without Top flag in both argument orders); non-trivial = refinement \
          is satisfiable; distinct by (kind, inputs)",
     );
     if let Some(lines) = args.replay_lines() {
@@ -297,6 +424,7 @@ fn main() {
     let ni8 = args.num("isect8", 20000, 200000);
     let niw = args.num("isectw", 10000, 200000);
     let nib = args.num("isectb", 8000, 150000);
+    let nd = args.num("disect", 8000, 150000);
     // bounds, 1-byte
     for i in 0..n8 {
         let a = rnd_dom(&mut rng, 8, i % 2 == 0);
@@ -409,6 +537,16 @@ fn main() {
         let wit = if a.s <= x && x <= a.e && b.s <= x && x <= b.e { vec![x] } else { vec![] };
         emit_isect(&mut out, &a, &b, &wit, 16);
         if i % 3 == 0 { emit_isect(&mut out, &b, &a, &wit, 16); }
+    }
+    // DataDomain::intersect: absolute-only / relative-only / mixed values with and without the top flag, same and
+    // different identifiers, overlapping and disjoint offsets and absolute parts; always in BOTH argument orders
+    for _ in 0..nd {
+        let size = *rng.pick(&[1u64, 1, 2, 4, 8, 8]);
+        let w = (8 * size) as usize;
+        let a = rnd_dval(&mut rng, w, None);
+        let b = if rng.chance(3, 4) { rnd_dval(&mut rng, w, Some(&a)) } else { rnd_dval(&mut rng, w, None) };
+        emit_disect(&mut out, size, &a, &b, 32);
+        emit_disect(&mut out, size, &b, &a, 32);
     }
     if args.tier == "thorough" {
         // all 1-byte intervals x all 256 bounds x all kinds would be 260 M cases; run every interval
